@@ -21,6 +21,8 @@ def OkEH (g : Graph) : Expr → Prop
   | .headsRange r h _ f => OkEH g r ∧ OkEH g h ∧ OkEH g f
   | .roots x => OkEH g x
   | .forkPoint x => OkEH g x
+  | .mergePoint x => OkEH g x
+  | .forks => True
   | .latest x _ => OkEH g x
   | .coalesce a b => OkEH g a ∧ OkEH g b
   | .notIn x => OkEH g x
@@ -67,6 +69,9 @@ theorem resolveH_ok : ∀ (e : Expr), OkEH g e →
     intro hok; simp only [resolve, resolvePred, OkR, OkP]; exact ⟨(ih hok).1, (ih hok).1⟩
   | latest x n ih =>
     intro hok; simp only [resolve, resolvePred, OkR, OkP]; exact ⟨(ih hok).1, (ih hok).1⟩
+  | mergePoint x ih =>
+    intro hok; simp only [resolve, resolvePred, OkR, OkP]; exact ⟨⟨(ih hok).1, hv⟩, (ih hok).1, hv⟩
+  | forks => intro _; simp only [resolve, resolvePred, OkR, OkP]; exact ⟨hv, hv⟩
   | coalesce a b iha ihb =>
     intro hok; simp only [resolve, resolvePred, OkR, OkP]
     exact ⟨⟨(iha hok.1).1, (ihb hok.2).1⟩, (iha hok.1).1, (ihb hok.2).1⟩
@@ -167,6 +172,19 @@ theorem resolveH_spec (g : Graph) (refs : List Nat) (ctx : Ctx g (refs ++ g.head
     have : ∀ p, denoteR g (resolve g refs (.latest x n)) p ↔
         denote g (refs ++ g.heads) (.latest x n) p := by
       intro p; simp only [resolve, denoteR, denote, LatestOf, (ih hok hr).1]
+    exact ⟨this, fun c _ => by simpa [resolvePred, resolve, denoteP] using this c⟩
+  | mergePoint x ih =>
+    intro hok hr
+    have hS : denoteR g (resolve g refs x) = denote g (refs ++ g.heads) x :=
+      funext fun y => propext ((ih hok hr).1 y)
+    have : ∀ p, denoteR g (resolve g refs (.mergePoint x)) p ↔
+        denote g (refs ++ g.heads) (.mergePoint x) p := by
+      intro p; simp only [resolve, rVhor, denoteR, denote, hS]
+    exact ⟨this, fun c _ => by simpa [resolvePred, resolve, denoteP] using this c⟩
+  | forks =>
+    intro _ _
+    have : ∀ p, denoteR g (resolve g refs .forks) p ↔ denote g (refs ++ g.heads) .forks p := by
+      intro p; simp only [resolve, rVhor, denoteR, denote]
     exact ⟨this, fun c _ => by simpa [resolvePred, resolve, denoteP] using this c⟩
   | coalesce a b iha ihb =>
     intro hok hr
